@@ -107,7 +107,6 @@ Record upd (x x' : ex) (l : list sendrec) (dbal dbu : Z) : Prop := {
   u_ch : xcharged x' = xcharged x;
   u_bu : xburnt x' = xburnt x + dbu;
   u_pa : xpaid x' = xpaid x;
-  u_ke : xkept x' = xkept x;
   u_ou : xout x' = xout x;
   u_lg : lg x' = lg x ++ l;
 }.
@@ -289,10 +288,10 @@ Ltac lspecs :=
       destruct H as (? & ? & ?)
   | H : x_repay_debts_or_abort _ = Ok _ |- _ => apply repay_debts_spec in H; destruct H as (-> & -> & _ & _)
   | H : s_unlock_vested _ _ = Ok _ |- _ => apply unlock_vested_light in H
-  | H : upd _ _ _ _ _ |- _ => destruct H as [_ _ _ ? _ _ ? ? ? ? ? ?]
+  | H : upd _ _ _ _ _ |- _ => destruct H as [_ _ _ ? _ _ ? ? ? ? ?]
   end.
 
-Ltac simp_ex := cbn [st rp lg xcharged xburnt xpaid xkept xout with_st add_charged add_burnt add_paid add_kept add_out
+Ltac simp_ex := cbn [st rp lg xcharged xburnt xpaid xout with_st add_charged add_burnt add_paid add_out
                      ex0 bal locked pcd ip fee_debt cfe mk set_bal set_locked set_pcd set_ip set_fee_debt set_cfe] in *.
 
 (* ---- which actors a handler sends to ---- *)
@@ -358,14 +357,13 @@ Ltac hide_forms :=
   end.
 
 (* ---- accounting summary of a transition ---- *)
-Definition acct (x : ex) : Z := fee_debt (st x) + xburnt x + xpaid x + xkept x - xcharged x.
+Definition acct (x : ex) : Z := fee_debt (st x) + xburnt x + xpaid x - xcharged x.
 Record good (x x' : ex) : Prop := {
   g_acct : acct x' = acct x;
   g_fd : 0 <= fee_debt (st x');
   g_ch : xcharged x <= xcharged x';
   g_bu : xburnt x <= xburnt x';
   g_pa : xpaid x <= xpaid x';
-  g_ke : xkept x <= xkept x';
   g_ou : xout x <= xout x';
 }.
 
@@ -374,7 +372,7 @@ Ltac good_tac := constructor; unfold acct in *; simp_ex; hide_forms; lia.
 Lemma apply_rewards_good x c r p v x' : 0 <= fee_debt (st x) ->
   h_apply_rewards x c r p v = Ok x' ->
   good x x' /\ sends_in BURNT_FUNDS_ACTOR_ID x x' /\ xcharged x' = xcharged x + p /\
-  xpaid x' = xpaid x /\ xkept x' = xkept x /\ xout x' = xout x.
+  xpaid x' = xpaid x /\  xout x' = xout x.
 Proof.
   intros Hfd H. unfold h_apply_rewards in H. repeat ok_step. lspecs. simp_ex. subst.
   split; [good_tac|]. split; [sends_tac|]. lia.
@@ -403,40 +401,14 @@ Lemma report_fault_good x rep e f er v x' : 0 <= fee_debt (st x) ->
   good x x' /\ sends_in rep x x' /\
   xcharged x' = xcharged x + consensus_fault_penalty er /\
   xpaid x' - xpaid x <= reward_for_consensus_slash_report er /\
-  xkept x' - xkept x <= reward_for_consensus_slash_report er /\
-  xout x' = xout x /\
-  (xkept x' <> xkept x -> exists l, lg x' = lg x ++ l /\ reporter_send_failed rep l) /\
-  (xkept x' = xkept x \/ xpaid x' = xpaid x) /\
-  (forall l, lg x' = lg x ++ l -> reporter_send_failed rep l ->
-     xpaid x' = xpaid x /\
-     xkept x' - xkept x =
-       Z.min (fee_debt (st x) + consensus_fault_penalty er - fee_debt (st x')) (reward_for_consensus_slash_report er)).
+  xout x' = xout x.
 Proof.
   intros Hfd H. unfold h_report_fault in H. repeat ok_step. split_reply.
   all: lspecs; simp_ex; subst; simp_ex.
   all: match goal with H : 0 <= consensus_fault_penalty ?q |- _ =>
          pose proof (cfp_nonneg _ H) as Her; pose proof (slash_reward_nonneg _ Her) as Hsl end.
   all: zb; subst; simp_ex.
-  - (* reporter paid *)
-    split; [good_tac|]. split; [sends_tac|].
-    split; [lia|]. split; [lia|]. split; [lia|]. split; [lia|].
-    split; [intros; lia|]. split; [lia|].
-    intros l Hl (v0 & r0 & Hin & Hr). exfalso.
-    match type of Hl with lg ?a = _ => eassert (Hfull : lg a = lg x ++ _) by (clear Hl; lg_chain) end.
-    rewrite Hfull in Hl. apply app_inv_head in Hl. subst l.
-    cbn in Hin. destruct Hin as [Hin|Hin]; [inversion Hin|].
-    destruct Hin as [Hin|Hin]; [inversion Hin; subst; lia|].
-    apply in_app_or in Hin. destruct Hin as [Hin|Hin].
-    + destruct (0 <? _) in Hin; [|destruct Hin]. destruct Hin as [Hin|[]]. inversion Hin; subst; lia.
-    + destruct (_ =? 0) in Hin; [destruct Hin|]. destruct Hin as [Hin|[]]. inversion Hin; subst; lia.
-  - (* reporter send failed *)
-    split; [good_tac|]. split; [sends_tac|].
-    split; [lia|]. split; [lia|]. split; [lia|]. split; [lia|].
-    split.
-    { intros _. eexists. split; [lg_chain|]. eexists _, z3.
-      split; [|assumption]. right. left. reflexivity. }
-    split; [lia|].
-    intros l Hl _. lia.
+  all: (split; [good_tac|]); (split; [sends_tac|]); hide_forms; lia.
 Qed.
 
 Lemma dispute_good x rep pre chk r v pwr x' : 0 <= fee_debt (st x) ->
@@ -444,7 +416,7 @@ Lemma dispute_good x rep pre chk r v pwr x' : 0 <= fee_debt (st x) ->
   good x x' /\ sends_in rep x x' /\
   xcharged x' = xcharged x + (pledge_penalty_for_invalid_windowpost r + reward_for_disputed_window_post) /\
   xpaid x' - xpaid x <= reward_for_disputed_window_post /\
-  xkept x' = xkept x /\ xout x' = xout x.
+   xout x' = xout x.
 Proof.
   intros Hfd H. unfold h_dispute in H. repeat ok_step. split_reply.
   all: lspecs; simp_ex; subst; simp_ex.
@@ -459,7 +431,7 @@ Definition et_fee (et : eterm) : Z :=
 Lemma early_term_good x et tol x' : 0 <= fee_debt (st x) ->
   h_early_term x et tol = Ok x' ->
   good x x' /\ sends_in BURNT_FUNDS_ACTOR_ID x x' /\ xcharged x' = xcharged x + et_fee et /\
-  xpaid x' = xpaid x /\ xkept x' = xkept x /\ xout x' = xout x /\ 0 <= et_fee et.
+  xpaid x' = xpaid x /\  xout x' = xout x /\ 0 <= et_fee et.
 Proof.
   intros Hfd H. unfold h_early_term in H. unfold et_fee. repeat ok_step.
   all: lspecs; simp_ex; subst; simp_ex.
@@ -481,7 +453,7 @@ Ltac use_early_term :=
       let G := fresh "G" in
       assert (G : 0 <= fee_debt (st y)) by (simp_ex; lia);
       apply (early_term_good y et tol z G) in H;
-      destruct H as ([] & (? & ? & ?) & ? & ? & ? & ? & ?)
+      destruct H as ([] & (? & ? & ?) & ? & ? & ? & ?)
   end.
 
 Lemma deadline_good x dep ff dfee rday ip_rel v pwr chain sys x' : 0 <= fee_debt (st x) ->
@@ -489,7 +461,7 @@ Lemma deadline_good x dep ff dfee rday ip_rel v pwr chain sys x' : 0 <= fee_debt
   good x x' /\ sends_in BURNT_FUNDS_ACTOR_ID x x' /\
   xcharged x' = xcharged x + deadline_charge dep ff dfee rday chain /\
   0 <= dep /\ 0 <= ff /\ (0 < dfee -> 0 <= daily_proof_fee_payable dfee rday) /\
-  xpaid x' = xpaid x /\ xkept x' = xkept x /\ xout x' = xout x /\
+  xpaid x' = xpaid x /\  xout x' = xout x /\
   0 <= match chain with Some et => et_fee et | None => 0 end.
 Proof.
   intros Hfd H. unfold h_deadline in H. unfold deadline_charge, pledge_penalty_for_continued_fault in *.
@@ -510,7 +482,7 @@ Lemma cron_good x caller ev sys x' : 0 <= fee_debt (st x) ->
     | CronEarlyTerm et => et_fee et
     | CronUnknown => 0
     end /\
-  xpaid x' = xpaid x /\ xkept x' = xkept x /\ xout x' = xout x /\
+  xpaid x' = xpaid x /\  xout x' = xout x /\
   check_balance_invariants (st x') = true.
 Proof.
   intros Hfd H. unfold h_cron in H. destruct (negb (caller =? STORAGE_POWER_ACTOR_ID)); [discriminate|].
@@ -535,7 +507,7 @@ Qed.
 Lemma terminate_good x chk pwr had et x' : 0 <= fee_debt (st x) ->
   h_terminate x chk pwr had et = Ok x' ->
   good x x' /\ sends_in BURNT_FUNDS_ACTOR_ID x x' /\ xcharged x' = xcharged x + et_fee et /\
-  xpaid x' = xpaid x /\ xkept x' = xkept x /\ xout x' = xout x /\
+  xpaid x' = xpaid x /\  xout x' = xout x /\
   check_balance_invariants (st x') = true.
 Proof.
   intros Hfd H. unfold h_terminate in H. repeat ok_step.
@@ -551,7 +523,7 @@ Qed.
 Lemma repay_debt_good x chk v x' : 0 <= fee_debt (st x) ->
   h_repay_debt x chk v = Ok x' ->
   good x x' /\ sends_in BURNT_FUNDS_ACTOR_ID x x' /\ xcharged x' = xcharged x /\
-  xpaid x' = xpaid x /\ xkept x' = xkept x /\ xout x' = xout x.
+  xpaid x' = xpaid x /\  xout x' = xout x.
 Proof.
   intros Hfd H. unfold h_repay_debt in H. repeat ok_step.
   all: lspecs; simp_ex; subst; simp_ex.
@@ -562,7 +534,7 @@ Qed.
 Lemma withdraw_good x cok early req q payee v x' : 0 <= fee_debt (st x) ->
   h_withdraw x cok early req q payee v = Ok x' ->
   good x x' /\ sends_in payee x x' /\ xcharged x' = xcharged x /\
-  xpaid x' = xpaid x /\ xkept x' = xkept x /\
+  xpaid x' = xpaid x /\ 
   fee_debt (st x') = 0 /\ xburnt x' = xburnt x + fee_debt (st x) /\
   0 <= xout x' - xout x <= req.
 Proof.
@@ -575,7 +547,7 @@ Qed.
 Lemma precommit_good x e pre c1 c2 dep deals nc x' : 0 <= fee_debt (st x) ->
   h_precommit x e pre c1 c2 dep deals nc = Ok x' ->
   good x x' /\ sends_in BURNT_FUNDS_ACTOR_ID x x' /\ xcharged x' = xcharged x /\
-  xpaid x' = xpaid x /\ xkept x' = xkept x /\ xout x' = xout x /\
+  xpaid x' = xpaid x /\  xout x' = xout x /\
   fee_debt (st x') = 0 /\ xburnt x' = xburnt x + fee_debt (st x).
 Proof.
   intros Hfd H. unfold h_precommit in H. repeat ok_step.
@@ -586,7 +558,7 @@ Qed.
 Lemma declare_recovered_good x e pre c1 c2 x' : 0 <= fee_debt (st x) ->
   h_declare_recovered x e pre c1 c2 = Ok x' ->
   good x x' /\ sends_in BURNT_FUNDS_ACTOR_ID x x' /\ xcharged x' = xcharged x /\
-  xpaid x' = xpaid x /\ xkept x' = xkept x /\ xout x' = xout x /\
+  xpaid x' = xpaid x /\  xout x' = xout x /\
   fee_debt (st x') = 0 /\ xburnt x' = xburnt x + fee_debt (st x).
 Proof.
   intros Hfd H. unfold h_declare_recovered in H. repeat ok_step.
@@ -597,7 +569,7 @@ Qed.
 Lemma prove_commit_ni_good x pre chk pl nc x' : 0 <= fee_debt (st x) ->
   h_prove_commit_ni x pre chk pl nc = Ok x' ->
   good x x' /\ sends_in BURNT_FUNDS_ACTOR_ID x x' /\ xcharged x' = xcharged x /\
-  xpaid x' = xpaid x /\ xkept x' = xkept x /\ xout x' = xout x /\
+  xpaid x' = xpaid x /\  xout x' = xout x /\
   fee_debt (st x') = 0 /\ xburnt x' = xburnt x + fee_debt (st x).
 Proof.
   intros Hfd H. unfold h_prove_commit_ni in H. repeat ok_step.
@@ -715,39 +687,23 @@ Definition reward_cap (o : op) : Z :=
   | _ => 0
   end.
 
-(* F5: the consensus-fault reporter's transfer failed *)
-Definition reporter_failure (o : op) (out : outcome) : Prop :=
-  match o with
-  | ReportFault rep _ _ _ _ _ => reporter_send_failed rep (sends out)
-  | _ => False
-  end.
-
 Record step_facts (s : state) (o : op) (s' : state) (out : outcome) : Prop := {
-  sf_acct : fee_debt s' + burnt out + reporter_paid out + kept out = fee_debt s + charged out;
+  sf_acct : fee_debt s' + burnt out + reporter_paid out = fee_debt s + charged out;
   sf_fd : 0 <= fee_debt s';
   sf_ch : 0 <= charged out;
   sf_bu : 0 <= burnt out;
   sf_pa : 0 <= reporter_paid out;
-  sf_ke : 0 <= kept out;
   sf_ou : 0 <= paid_out out;
   sf_sends : Forall (send_ok (recipient o)) (sends out);
   sf_charge : code out = 0 -> charged out = expected_charge o;
-  sf_cap : code out = 0 -> reporter_paid out <= reward_cap o /\ kept out <= reward_cap o;
-  sf_kept : kept out <> 0 -> reporter_failure o out;
-  sf_excl : kept out = 0 \/ reporter_paid out = 0;
-  sf_fail : reporter_failure o out -> reporter_paid out = 0 /\
-            match o with
-            | ReportFault _ _ _ er _ _ =>
-                kept out = Z.min (fee_debt s + charged out - fee_debt s') (reward_for_consensus_slash_report er)
-            | _ => True
-            end;
+  sf_cap : code out = 0 -> reporter_paid out <= reward_cap o;
   sf_out : (forall a b c d e f g, o <> Withdraw a b c d e f g) -> paid_out out = 0;
   sf_rejected : code out <> 0 -> s' = s /\ out = fail (code out);
 }.
 
 Lemma good_ex0 s rps x : good (ex0 s rps) x ->
-  fee_debt (st x) + xburnt x + xpaid x + xkept x = fee_debt s + xcharged x /\
-  0 <= fee_debt (st x) /\ 0 <= xcharged x /\ 0 <= xburnt x /\ 0 <= xpaid x /\ 0 <= xkept x /\ 0 <= xout x.
+  fee_debt (st x) + xburnt x + xpaid x = fee_debt s + xcharged x /\
+  0 <= fee_debt (st x) /\ 0 <= xcharged x /\ 0 <= xburnt x /\ 0 <= xpaid x /\ 0 <= xout x.
 Proof. intros []. unfold acct in *. cbn in *. repeat split; lia. Qed.
 
 Lemma sends_ex0 rep s rps x : sends_in rep (ex0 s rps) x -> Forall (send_ok rep) (lg x).
@@ -756,15 +712,11 @@ Proof. intros (l & E & F). cbn in E. rewrite E. exact F. Qed.
 Lemma send_ok_burnt rep l : Forall (send_ok BURNT_FUNDS_ACTOR_ID) l -> Forall (send_ok rep) l.
 Proof. apply Forall_impl. intros r [H|[H|H]]; unfold send_ok; auto. Qed.
 
-Lemma no_failure_in_fail o c : ~ reporter_failure o (fail c).
-Proof. destruct o; cbn; try tauto. intros (v0 & r0 & [] & _). Qed.
-
 Lemma step_facts_hold s o s' out : 0 <= fee_debt s -> step s o = (s', out) -> step_facts s o s' out.
 Proof.
   intros Hfd. unfold step. destruct (handle s o) as [x|c] eqn:Hh; intros H; injection H as <- <-.
   2:{ pose proof (handle_err _ _ _ Hh) as Hc.
-      constructor; cbn [fail code charged burnt reporter_paid kept paid_out sends]; try lia.
-      all: try (intros H0; exfalso; exact (no_failure_in_fail o c H0)).
+      constructor; cbn [fail code charged burnt reporter_paid paid_out sends]; try lia.
       all: try (intros H0; exfalso; lia).
       all: try constructor; try tauto; try lia. }
   assert (Hrw : 0 < reward_for_disputed_window_post) by reflexivity.
@@ -772,47 +724,45 @@ Proof.
   - (* ApplyRewards *)
     destruct (value <? 0); [discriminate|].
     apply apply_rewards_good in Hh; [|cbn; lia].
-    destruct Hh as (G & S & C & P & K & O). apply good_ex0 in G. apply sends_ex0 in S. cbn in *.
+    destruct Hh as (G & S & C & P & O). apply good_ex0 in G. apply sends_ex0 in S. cbn in *.
     constructor; cbn; first [lia | assumption | tauto | (intros; lia) | (intros; congruence)].
   - (* ReportFault *)
     apply report_fault_good in Hh; [|cbn; lia].
-    destruct Hh as (G & S & C & P & K & O & KF & EX & FL). apply good_ex0 in G. apply sends_ex0 in S. cbn in *.
-    constructor; cbn; first [lia | assumption | tauto | (intros; lia) | (intros; congruence) | idtac].
-    + intros Hk. destruct (KF ltac:(lia)) as (l & El & F). cbn in El. rewrite El. exact F.
-    + intros F. destruct (FL (lg x) eq_refl F) as [F1 F2]. split; [lia|]. rewrite C. lia.
+    destruct Hh as (G & S & C & P & O). apply good_ex0 in G. apply sends_ex0 in S. cbn in *.
+    constructor; cbn; first [lia | assumption | tauto | (intros; lia) | (intros; congruence)].
   - (* Dispute *)
     apply dispute_good in Hh; [|cbn; lia].
-    destruct Hh as (G & S & C & P & K & O). apply good_ex0 in G. apply sends_ex0 in S. cbn in *.
+    destruct Hh as (G & S & C & P & O). apply good_ex0 in G. apply sends_ex0 in S. cbn in *.
     constructor; cbn; first [lia | assumption | tauto | (intros; lia) | (intros; congruence)].
   - (* Cron *)
     apply cron_good in Hh; [|cbn; lia].
-    destruct Hh as (G & S & C & P & K & O & I). apply good_ex0 in G. apply sends_ex0 in S. cbn in *.
+    destruct Hh as (G & S & C & P & O & I). apply good_ex0 in G. apply sends_ex0 in S. cbn in *.
     constructor; cbn; first [lia | assumption | tauto | (intros; lia) | (intros; congruence) | idtac].
     all: try (intros _; rewrite C; destruct ev; reflexivity).
   - (* Terminate *)
     apply terminate_good in Hh; [|cbn; lia].
-    destruct Hh as (G & S & C & P & K & O & I). apply good_ex0 in G. apply sends_ex0 in S. cbn in *.
+    destruct Hh as (G & S & C & P & O & I). apply good_ex0 in G. apply sends_ex0 in S. cbn in *.
     constructor; cbn; first [lia | assumption | tauto | (intros; lia) | (intros; congruence)].
   - (* RepayDebt *)
     apply repay_debt_good in Hh; [|cbn; lia].
-    destruct Hh as (G & S & C & P & K & O). apply good_ex0 in G. apply sends_ex0 in S. cbn in *.
+    destruct Hh as (G & S & C & P & O). apply good_ex0 in G. apply sends_ex0 in S. cbn in *.
     constructor; cbn; first [lia | assumption | tauto | (intros; lia) | (intros; congruence)].
   - (* Withdraw *)
     apply withdraw_good in Hh; [|cbn; lia].
-    destruct Hh as (G & S & C & P & K & F & B & O). apply good_ex0 in G. apply sends_ex0 in S. cbn in *.
+    destruct Hh as (G & S & C & P & F & B & O). apply good_ex0 in G. apply sends_ex0 in S. cbn in *.
     constructor; cbn; first [lia | assumption | tauto | (intros; lia) | (intros; congruence) | idtac].
     all: try (intros Hn; exfalso; eapply Hn; reflexivity).
   - (* PreCommit *)
     apply precommit_good in Hh; [|cbn; lia].
-    destruct Hh as (G & S & C & P & K & O & F & B). apply good_ex0 in G. apply sends_ex0 in S. cbn in *.
+    destruct Hh as (G & S & C & P & O & F & B). apply good_ex0 in G. apply sends_ex0 in S. cbn in *.
     constructor; cbn; first [lia | assumption | tauto | (intros; lia) | (intros; congruence)].
   - (* DeclareRecovered *)
     apply declare_recovered_good in Hh; [|cbn; lia].
-    destruct Hh as (G & S & C & P & K & O & F & B). apply good_ex0 in G. apply sends_ex0 in S. cbn in *.
+    destruct Hh as (G & S & C & P & O & F & B). apply good_ex0 in G. apply sends_ex0 in S. cbn in *.
     constructor; cbn; first [lia | assumption | tauto | (intros; lia) | (intros; congruence)].
   - (* ProveCommitNI *)
     apply prove_commit_ni_good in Hh; [|cbn; lia].
-    destruct Hh as (G & S & C & P & K & O & F & B). apply good_ex0 in G. apply sends_ex0 in S. cbn in *.
+    destruct Hh as (G & S & C & P & O & F & B). apply good_ex0 in G. apply sends_ex0 in S. cbn in *.
     constructor; cbn; first [lia | assumption | tauto | (intros; lia) | (intros; congruence)].
   - (* Other *)
     apply finish_spec in Hh. destruct Hh as [-> I]. cbn.
@@ -946,10 +896,10 @@ Proof.
   intros Hfd Hn Hs Hc. unfold step in Hs. destruct (handle s o) as [x|c] eqn:Hh; injection Hs as <- <-.
   2:{ cbn in Hc. apply handle_err in Hh. contradiction. }
   destruct o; cbn [gated_name] in Hn; try discriminate; cbn [handle] in Hh.
-  - apply withdraw_good in Hh; [|cbn; lia]. cbn in *. destruct Hh as (_ & _ & ? & _ & _ & ? & ? & _). lia.
-  - apply precommit_good in Hh; [|cbn; lia]. cbn in *. destruct Hh as (_ & _ & ? & _ & _ & _ & ? & ?). lia.
-  - apply declare_recovered_good in Hh; [|cbn; lia]. cbn in *. destruct Hh as (_ & _ & ? & _ & _ & _ & ? & ?). lia.
-  - apply prove_commit_ni_good in Hh; [|cbn; lia]. cbn in *. destruct Hh as (_ & _ & ? & _ & _ & _ & ? & ?). lia.
+  - apply withdraw_good in Hh; [|cbn; lia]. cbn in *. destruct Hh as (_ & _ & ? & _ & ? & ? & _). lia.
+  - apply precommit_good in Hh; [|cbn; lia]. cbn in *. destruct Hh as (_ & _ & ? & _ & _ & ? & ?). lia.
+  - apply declare_recovered_good in Hh; [|cbn; lia]. cbn in *. destruct Hh as (_ & _ & ? & _ & _ & ? & ?). lia.
+  - apply prove_commit_ni_good in Hh; [|cbn; lia]. cbn in *. destruct Hh as (_ & _ & ? & _ & _ & ? & ?). lia.
 Qed.
 
 (* ============================================================================================ *)
@@ -962,47 +912,22 @@ Fixpoint outs (s : state) (ops : list op) : list outcome :=
   end.
 Definition sumf (f : outcome -> Z) (l : list outcome) : Z := fold_right (fun o a => f o + a) 0 l.
 
-Fixpoint no_reporter_failure (s : state) (ops : list op) : Prop :=
-  match ops with
-  | [] => True
-  | o :: r => let '(s', out) := step s o in ~ reporter_failure o out /\ no_reporter_failure s' r
-  end.
-
 Lemma run_cons s o r : run s (o :: r) = run (fst (step s o)) r.
 Proof. reflexivity. Qed.
 
 Theorem history_accounting ops : forall s, 0 <= fee_debt s ->
-  fee_debt (run s ops) + sumf burnt (outs s ops) + sumf reporter_paid (outs s ops) + sumf kept (outs s ops)
+  fee_debt (run s ops) + sumf burnt (outs s ops) + sumf reporter_paid (outs s ops)
     = fee_debt s + sumf charged (outs s ops) /\
   0 <= fee_debt (run s ops) /\ 0 <= sumf burnt (outs s ops) /\ 0 <= sumf reporter_paid (outs s ops) /\
-  0 <= sumf kept (outs s ops) /\ 0 <= sumf charged (outs s ops).
+  0 <= sumf charged (outs s ops).
 Proof.
   induction ops as [|o r IH]; intros s Hfd.
   - cbn. lia.
   - rewrite run_cons. cbn [outs]. destruct (step s o) as [s' out] eqn:E. cbn [fst sumf fold_right].
     pose proof (step_facts_hold s o s' out Hfd E) as [].
     specialize (IH s' sf_fd0). fold (sumf burnt (outs s' r)) (sumf reporter_paid (outs s' r))
-      (sumf kept (outs s' r)) (sumf charged (outs s' r)). lia.
+      (sumf charged (outs s' r)). lia.
 Qed.
-
-Theorem history_exact_without_reporter_failure ops : forall s, 0 <= fee_debt s ->
-  no_reporter_failure s ops ->
-  sumf kept (outs s ops) = 0 /\
-  fee_debt (run s ops) + sumf burnt (outs s ops) + sumf reporter_paid (outs s ops)
-    = fee_debt s + sumf charged (outs s ops).
-Proof.
-  intros s Hfd Hn. assert (Hk : sumf kept (outs s ops) = 0).
-  { revert s Hfd Hn. induction ops as [|o r IH]; intros s Hfd Hn; [reflexivity|].
-    cbn [outs no_reporter_failure] in *. destruct (step s o) as [s' out] eqn:E. destruct Hn as [Hn1 Hn2].
-    pose proof (step_facts_hold s o s' out Hfd E) as [].
-    cbn [sumf fold_right]. fold (sumf kept (outs s' r)). rewrite (IH s' sf_fd0 Hn2).
-    destruct (Z.eq_dec (kept out) 0) as [->|Hne]; [reflexivity|]. exfalso. apply Hn1. apply sf_kept0. assumption. }
-  split; [assumption|]. pose proof (history_accounting ops s Hfd). lia.
-Qed.
-
-(* ---- F5 witness ---- *)
-Definition f5_state : state := mk 1000 0 0 0 0 0.
-Definition f5_op : op := ReportFault 101 10 (Some (true, 5)) 2000 0 [0; 7].
 
 (* ============================================================================================ *)
 (* the statements pinned in Props/C15.v                                                           *)
@@ -1089,7 +1014,7 @@ Lemma c15_continued_fault_charged s caller dep ff dfee rday ip_rel v pwr chain s
                 match chain with Some et => et_fee et | None => 0 end /\
   pledge_penalty_for_continued_fault ff = ff /\ 0 <= ff /\ 0 <= dep /\ ff <= charged out /\
   fee_debt s' + burnt out = fee_debt s + charged out /\ 0 <= burnt out /\
-  reporter_paid out = 0 /\ kept out = 0 /\ paid_out out = 0.
+  reporter_paid out = 0 /\ paid_out out = 0.
 Proof.
   intros Hfd Hs Hc. pose proof (step_facts_hold _ _ _ _ Hfd Hs) as F.
   unfold step in Hs. destruct (handle _ _) as [x|c] eqn:Hh; injection Hs as <- <-.
@@ -1099,49 +1024,23 @@ Proof.
   destruct (h_deadline _ _ _ _ _ _ _ _ _ _) as [y|] eqn:E; cbn [bind] in Hh; [|discriminate].
   apply finish_spec in Hh. destruct Hh as [-> _].
   apply deadline_good in E; [|cbn; lia].
-  destruct E as (G & _ & C & Hd & Hf & Hdf & P & K & O & Hch). apply good_ex0 in G. cbn in *.
+  destruct E as (G & _ & C & Hd & Hf & Hdf & P & O & Hch). apply good_ex0 in G. cbn in *.
   unfold deadline_charge in C.
   assert (0 <= (if 0 <? dfee then daily_proof_fee_payable dfee rday else 0)).
   { destruct (0 <? dfee) eqn:E; [zb; auto|lia]. }
   unfold pledge_penalty_for_continued_fault in *. repeat split; try lia.
 Qed.
 
-Lemma f5_witness :
-  exists s o, check_balance_invariants s = true /\
-    let '(s', out) := step s o in
-    code out = 0 /\ reporter_failure o out /\
-    fee_debt s' + burnt out + reporter_paid out <> fee_debt s + charged out.
-Proof.
-  exists f5_state, f5_op. split; [reflexivity|]. vm_compute. split; [reflexivity|]. split.
-  - exists 100, 7. split; [right; left; reflexivity|discriminate].
-  - discriminate.
-Qed.
-
 Lemma c15_penalty_accounting s o s' out : 0 <= fee_debt s -> step s o = (s', out) ->
-  fee_debt s' + burnt out + reporter_paid out + kept out = fee_debt s + charged out /\
-  0 <= fee_debt s' /\ 0 <= charged out /\ 0 <= burnt out /\ 0 <= reporter_paid out /\ 0 <= kept out /\
-  (kept out <> 0 -> reporter_failure o out) /\
-  (~ reporter_failure o out -> fee_debt s' + burnt out + reporter_paid out = fee_debt s + charged out) /\
+  fee_debt s' + burnt out + reporter_paid out = fee_debt s + charged out /\
+  0 <= fee_debt s' /\ 0 <= charged out /\ 0 <= burnt out /\ 0 <= reporter_paid out /\
   Forall (send_ok (recipient o)) (sends out) /\
   ((forall a b c d e f g, o <> Withdraw a b c d e f g) -> paid_out out = 0) /\
   (code out = 0 -> charged out = expected_charge o) /\
   (code out <> 0 -> s' = s /\ out = fail (code out)).
 Proof.
   intros Hfd Hs. destruct (step_facts_hold s o s' out Hfd Hs).
-  repeat (split; [assumption|]). split.
-  - intros Hn. destruct (Z.eq_dec (kept out) 0) as [E|E]; [lia|]. exfalso. auto.
-  - repeat (split; [assumption|]). assumption.
-Qed.
-
-Lemma c15_discrepancy s rep e f er v rps s' out : 0 <= fee_debt s ->
-  step s (ReportFault rep e f er v rps) = (s', out) ->
-  reporter_send_failed rep (sends out) ->
-  reporter_paid out = 0 /\
-  fee_debt s + charged out - (fee_debt s' + burnt out + reporter_paid out) = kept out /\
-  kept out = Z.min (fee_debt s + charged out - fee_debt s') (reward_for_consensus_slash_report er).
-Proof.
-  intros Hfd Hs Hf. destruct (step_facts_hold _ _ _ _ Hfd Hs).
-  destruct (sf_fail0 Hf) as [H1 H2]. split; [assumption|]. split; [lia|assumption].
+  repeat (split; [assumption|]). assumption.
 Qed.
 
 Lemma c15_reporter_reward_le_taken s o s' out : 0 <= fee_debt s -> step s o = (s', out) ->
@@ -1153,7 +1052,7 @@ Proof.
   intros Hfd Hs. pose proof (step_facts_hold _ _ _ _ Hfd Hs) as F. destruct F.
   split; [lia|]. split; [intros Hc; apply sf_cap0; assumption|].
   intros Hp. destruct (Z.eq_dec (code out) 0) as [Hc|Hc].
-  - destruct (sf_cap0 Hc) as [Hcap _].
+  - pose proof (sf_cap0 Hc) as Hcap.
     destruct o; cbn [reward_cap] in Hcap; try lia.
     + left. do 6 eexists. reflexivity.
     + right. do 7 eexists. reflexivity.
@@ -1162,7 +1061,7 @@ Qed.
 
 Lemma c15_penalties_nonneg s o s' out : 0 <= fee_debt s -> step s o = (s', out) ->
   0 <= charged out /\ (code out = 0 -> 0 <= expected_charge o) /\
-  fee_debt s <= fee_debt s' + burnt out + reporter_paid out + kept out.
+  fee_debt s <= fee_debt s' + burnt out + reporter_paid out.
 Proof.
   intros Hfd Hs. destruct (step_facts_hold _ _ _ _ Hfd Hs).
   split; [assumption|]. split; [intros Hc; rewrite <- (sf_charge0 Hc); assumption|lia].
